@@ -198,6 +198,20 @@ func checkStoredSurface(prop string, seg segment.Segment, want *spec.Obs, idList
 				v = violation(prop, "docnumbers/mismatch", "DocNumbers(%q) = %v, model %v", ids, got, wantArr)
 				return nil
 			}
+			// the returned bitmap belongs to the caller, who goes on using it
+			bm.Add(0xfffffff0)
+		}
+		// two lookups without any hit, the caller modifying the first result in between
+		for round := 0; round < 2; round++ {
+			bm, err := seg.DocNumbers([]string{"\x02no-such-id\x02"})
+			if err != nil {
+				return fmt.Errorf("DocNumbers(absent id): %w", err)
+			}
+			if !bm.IsEmpty() {
+				v = violation(prop, "docnumbers/absent-id", "DocNumbers of an absent id returns %v (lookup %d; the caller had modified bitmaps returned earlier)", bm.ToArray(), round+1)
+				return nil
+			}
+			bm.Add(7)
 		}
 		return nil
 	})
